@@ -256,10 +256,25 @@ class Ctx:
         if r == "unknown":
             # the simplex core occasionally stalls on ite/div heavy queries that the default core answers at once;
             # after two stalls on a path the default core is used directly for the rest of that path
-            s2 = z3.Solver()
-            s2.set("timeout", timeout or self.branch_timeout)
-            s2.add(self.solver.assertions())
-            r = str(s2.check(*extra))
+            # Restart ladder.  Measured on this code base (z3 5.1): the same LIA query with nested div/ite terms is
+            # answered in milliseconds or not within seconds depending on term order / seed (heavy tailed), so a few
+            # short attempts on re-parsed copies with different seeds beat one long attempt.
+            tmp = z3.Solver()
+            tmp.add(self.solver.assertions())
+            tmp.add(*extra)
+            text = tmp.sexpr()
+            full = timeout or self.branch_timeout
+            ladder = [(400, 11, None), (400, 23, 2), (1200, 37, None), (full, 41, None)]
+            for ms, seed, arith in ladder:
+                s2 = z3.Solver()
+                s2.set("timeout", min(ms, full))
+                s2.set("smt.random_seed", seed)
+                if arith is not None:
+                    s2.set("smt.arith.solver", arith)
+                s2.from_string(text)
+                r = str(s2.check())
+                if r != "unknown":
+                    break
             self._last_solver = s2
             self._fallbacks += 1
             self.stats["fallback_queries"] = self.stats.get("fallback_queries", 0) + 1
@@ -269,7 +284,8 @@ class Ctx:
         if el > SLOW_LOG_S:
             import sys
             print("SLOW query %.1fs -> %s (decisions=%d) %s" % (el, r, len(self.decisions), self._what), file=sys.stderr)
-            if _os.environ.get("SYMX_DUMP") and not _os.path.exists(_os.environ["SYMX_DUMP"]):
+            if _os.environ.get("SYMX_DUMP") and not _os.path.exists(_os.environ["SYMX_DUMP"]) and \
+                    (r == "unknown" or not _os.environ.get("SYMX_DUMP_UNKNOWN")):
                 s2 = z3.Solver()
                 s2.add(self.solver.assertions())
                 s2.add(*extra)
@@ -410,7 +426,8 @@ class Ctx:
         """Decimal input with `prec` decimals: value = n * 10**-prec, lo <= n <= hi (coefficient units)."""
         from .dec import SymDec
         if self.mode != "sym":
-            n = int(self.assign[name])
+            # (an input the symbolic path never asked for gets its lower bound: the concrete run may go further)
+            n = int(self.assign.get(name, lo if lo is not None else 1))
             self.vars[name] = VarSpec(name, "dec", prec, None)
             return Decimal(n).scaleb(-prec)
         n = z3.Int(name)
@@ -426,7 +443,7 @@ class Ctx:
         from .num import SymInt
         if self.mode != "sym":
             self.vars[name] = VarSpec(name, "int", None, None)
-            return int(self.assign[name])
+            return int(self.assign.get(name, lo if lo is not None else 0))
         n = z3.Int(name)
         self._reg(name, "int", None, n)
         if lo is not None:
@@ -439,7 +456,7 @@ class Ctx:
         from .num import SymReal
         if self.mode != "sym":
             self.vars[name] = VarSpec(name, "real", None, None)
-            return float(unjson(self.assign[name]))
+            return float(unjson(self.assign.get(name, lo if lo is not None else 0)))
         r = z3.Real(name)
         self._reg(name, "real", None, r)
         if lo is not None:
@@ -453,7 +470,7 @@ class Ctx:
         from .dt import SymDT, to_us, from_us
         if self.mode != "sym":
             self.vars[name] = VarSpec(name, "dt", None, None)
-            return from_us(int(self.assign[name]))
+            return from_us(int(self.assign[name])) if name in self.assign else (lo if lo is not None else from_us(0))
         n = z3.Int(name)
         self._reg(name, "dt", None, n)
         if lo is not None:
@@ -467,7 +484,7 @@ class Ctx:
         """Solver-chosen integer in range(n); forks so that the result is a concrete python int."""
         if self.mode != "sym":
             self.vars[name] = VarSpec(name, "choice", n, None)
-            return int(self.assign[name])
+            return int(self.assign.get(name, 0))
         v = z3.Int(name)
         self._reg(name, "choice", n, v)
         self.add(z3.And(v >= 0, v < n))
